@@ -28,7 +28,14 @@ def gen_dim(rnd, kind, name):
     cats = [dict(id=i + 1, missing=rnd.random() < 0.25) for i in range(n)]
     if all(c["missing"] for c in cats):
         cats[rnd.randrange(n)]["missing"] = False
-    return dict(kind=kind, name=name, cats=cats)
+    d = dict(kind=kind, name=name, cats=cats)
+    if rnd.random() < 0.25:
+        # typedef "order": the data along this dimension is in `cats` order, while the
+        # typedef lists the categories in a different (document) order
+        doc = list(range(n))
+        rnd.shuffle(doc)
+        d["doc_order"] = doc
+    return d
 
 
 def gen_respondents(rnd, dims, nresp, weighted):
@@ -73,7 +80,10 @@ def dim_json(d):
         if d["kind"] == "CAT_DATE":
             cat["date"] = "2020-%02d" % (k + 1)
         cats.append(cat)
-    return [{"type": {"class": "categorical", "categories": cats}, "references": {"alias": d["name"], "name": d["name"].upper()}}]
+    typedef = {"class": "categorical", "categories": cats}
+    if d.get("doc_order"):
+        typedef = {"class": "categorical", "categories": [cats[k] for k in d["doc_order"]], "order": [c["id"] for c in cats]}
+    return [{"type": typedef, "references": {"alias": d["name"], "name": d["name"].upper()}}]
 
 
 def axes_of(d):
@@ -258,6 +268,10 @@ class EndToEnd(EnumContract):
                 continue
             if not close(p.counts, ow["counts"]):
                 bad.add("counts")
+            if rd["kind"] != "MR" and list(p.row_labels) != ["%s%d" % (rd["name"], rd["cats"][i]["id"]) for i in R]:
+                bad.add("shape-and-labels")
+            if cd["kind"] != "MR" and list(p.column_labels) != ["%s%d" % (cd["name"], cd["cats"][j]["id"]) for j in C]:
+                bad.add("shape-and-labels")
             if not close(p.unweighted_counts, ou["counts"]):
                 bad.add("unweighted-counts")
             if not (close(p.row_weighted_bases, ow["row_bases"]) and close(p.row_unweighted_bases, ou["row_bases"])):
